@@ -245,3 +245,9 @@ def c09(work, tier, seed, replay):
 def c10(work, tier, seed, replay):
     import fam_gateway as fg
     return fg.c10(work, tier, seed)
+
+
+@check("C07")
+def c07(work, tier, seed, replay):
+    import fam_gateway as fg
+    return fg.c07(work, tier, seed)
